@@ -26,7 +26,7 @@ import itertools
 from ..astutil import body_without_doc, dotted, func_params, kwarg, method_name, raise_exc_name, walk_no_nested
 from ..core import AnalysisError, ConstEnv, norm, type_vocabulary
 from ..effects import Analyzer, VIOLATING_PARTS
-from ..minieval import BlockInterp, MiniEval, ModelRaise, Unsupported
+from ..minieval import bind_unbound_defaults, BlockInterp, MiniEval, ModelRaise, Unsupported
 from ..models import MBlackBox, MMutCircuit, reference_connect_error
 from ..typetables import NO_FANIN, NO_FANOUT, SINGLE_FANIN, reference_partition
 
@@ -36,6 +36,7 @@ FILE = "circuit.py"
 def _run_body(fi, env, what):
     bi = BlockInterp(env)
     try:
+        bind_unbound_defaults(fi.node, bi.me.env)
         r = bi.run(body_without_doc(fi.node))
     except ModelRaise as e:
         return ("raise", e.kind)
